@@ -4,7 +4,13 @@ binary on generated histories + an oracle written from the property text that ju
 copy / move directly from the store event logs, the cache object set and the workspace."""
 from . import common as C, repo as R, repoext as X
 
-THEOREMS = ["copy_shares_object", "move_preserves_count", "refuses", "absent_source_ok", "cross_ext_refuted"]
+THEOREMS = ["copy_shares_object", "move_preserves_count", "refuses", "absent_source_ok", "cross_ext_refuted",
+            "copy_across_extensions_fixed", "move_across_extensions_fixed", "C19_full_fixed", "K_cross_ext_empty_when_fixed"]
+
+# the switch fixed_P3 of the model, read from the source of the working tree on every run (X.flags_from_source):
+# with the repair present the class cross-ext is empty (nothing is suppressed) and the oracle asks for the
+# destination's own object
+FIXED_P3 = False
 
 
 def dest_of(it, p):
@@ -62,18 +68,44 @@ def judge(sc, j):
         return bad                     # two sources with one destination name (--name-only): outside the property
     # -- the pairs that must go through --------------------------------------------------------------
     klass = None
-    if cross:
+    if cross and not FIXED_P3:
         klass = "cross-ext"
     elif cmd == "move" and any(p not in prev["ws"] and prev["recs"][p][1] in ("copy", "reflink") and (o.get("as") or "copy") in ("copy", "reflink")
                                for p, _ in pairs):
         klass = "move-absent-source"
     have_objects = all(X.committed_bytes(prev, p) is not None for p, _ in pairs)
-    if not have_objects and not cross:
+    if not have_objects and (FIXED_P3 or not cross):
+        if FIXED_P3 and not taken and (cur["oc"] == "Panic" or (cur["oc"] != "Ok" and not unchanged(prev, cur))):
+            # (the repair of P3) a copy / move that cannot materialise a destination stops before any record changes
+            bad.append(("%s %s -> %s failed (%s) and changed the repository" % (cmd, it[2], it[3], cur["oc"]), None))
         return bad                     # the committed content is not in the cache: nothing to share
     if cur["oc"] != "Ok" and not taken:
         bad.append(("%s %s -> %s failed (%s)" % (cmd, it[2], it[3], cur["oc"]), klass))
-    if cur["objs"] != prev["objs"]:
-        bad.append(("%s %s -> %s changed the cache objects: %s" % (cmd, it[2], it[3], sorted(set(cur["objs"]) ^ set(prev["objs"]))[:3]), klass))
+    # "sharing the same cache object": the address of a version is <digest>/<extension of the current path>.  With the same
+    # extension it is literally one object and the object set must not change at all.  With another extension (the repair
+    # of P3) content identity means: the same digest is recorded, and the destination's address holds a read-only regular
+    # file with exactly the bytes of the source's object in a read-only directory; no other object appears, none changes
+    # or disappears (move: also the earlier versions of the moved entity, which stay reachable through the new path)
+    allowed = {}
+    if cross and FIXED_P3:
+        for p, d in pairs:
+            if R.ext_of(p) != R.ext_of(d):
+                rec = prev["recs"][p]
+                for dg in ([rec[0]] + (list(rec[3]) if cmd == "move" else [])):
+                    if dg != "-":
+                        allowed["%s/%s" % (dg, R.ext_of(d))] = "%s/%s" % (dg, R.ext_of(p))
+    for a in sorted(set(cur["objs"]) | set(prev["objs"])):
+        pe, ce = prev["objs"].get(a), cur["objs"].get(a)
+        if pe == ce:
+            continue
+        if pe is None and a in allowed and allowed[a] in prev["objs"]:
+            if ce[:3] != ["F", "0", "0"] or ce[3] != prev["objs"][allowed[a]][3]:
+                bad.append(("%s %s -> %s: the object %s made for the destination is %s, expected a read-only copy of %s" % (cmd, it[2], it[3], a, ce[:3] + [R.short(ce[3])], allowed[a]), klass))
+            continue
+        if pe is not None and ce is not None and [pe[0], pe[1], pe[3]] == [ce[0], ce[1], ce[3]] and ce[2] == "0" \
+                and any(b.rsplit("/", 1)[0] == a.rsplit("/", 1)[0] and b not in prev["objs"] and b in cur["objs"] for b in allowed):
+            continue                   # its directory received the destination's object and was left read-only (as after a carry-in)
+        bad.append(("%s %s -> %s changed the cache objects: %s" % (cmd, it[2], it[3], a), klass))
     partial = cur["oc"] != "Ok"
     for p, d in pairs:
         src, dst = prev["recs"][p], cur["recs"].get(d)
@@ -165,6 +197,8 @@ def run(chk, replay=None):
         for w in bad[:1]:
             chk.fail("oracle", w, {"kind": "algo-switch", "rseed": replay["rseed"], "scenario": sc}, name="algoswitch")
         return
+    global FIXED_P3
+    FIXED_P3 = X.flags_from_source()[5] == "1"
     res = _run(chk, replay)
     if not replay:
         xvc = C.ensure_xvc()
